@@ -269,6 +269,7 @@ pub fn run_c05(rep: &mut Report) {
 
     clean_run_then_fault(rep, "C05", frame_expect);
     copies_then_every_frame(rep, "C05", frame_expect);
+    shifted_bursts(rep, "C05", frame_expect);
 
     // ---- add_word takes &self and the type is Sync: one decoder shared by reference between threads must judge every word by
     //      the rule, whatever the other threads are feeding it at the same time
@@ -693,6 +694,66 @@ fn copies_then_every_frame(rep: &mut Report, prop: &str, oracle: fn(u16) -> Resu
     rep.count("frames_judged_after_copies_of_one_frame", judged);
 }
 
+/// The frames a keyboard sends outside typing (ACK, self-test passed, resend, echo, identify bytes, prefixes …) arriving
+/// *shifted* against the decoder's 11-bit grouping: z stray bits of one polarity (a line held low / idle high), two or
+/// three such frames back to back, idle padding up to the next group boundary, then valid and invalid frames.  Every
+/// aligned group of eleven bits is judged: ten times 'incomplete', then the verdict on those eleven bits.
+fn shifted_bursts(rep: &mut Report, prop: &str, oracle: fn(u16) -> Result<u8, Error>) {
+    const CTL: [u8; 12] = [0xFA, 0xAA, 0xFE, 0xEE, 0x00, 0xAB, 0x83, 0xF0, 0xE0, 0xE1, 0xFC, 0xFF];
+    let mut judged = 0u64;
+    let mut reported = 0;
+    for z in 0..=21usize {
+        for pol in [false, true] {
+            for c1 in CTL {
+                for c2 in CTL {
+                    for c3 in std::iter::once(None).chain(CTL.iter().map(|c| Some(*c))) {
+                        let mut bits: Vec<bool> = vec![pol; z];
+                        for c in [Some(c1), Some(c2), c3].into_iter().flatten() {
+                            let w = encode_frame(c);
+                            bits.extend((0..11).map(|i| (w >> i) & 1 == 1));
+                        }
+                        while bits.len() % 11 != 0 {
+                            bits.push(true);
+                        }
+                        for w in [encode_frame(0x07), encode_frame(0x1C) ^ 0x200, encode_frame(0xF0)] {
+                            bits.extend((0..11).map(|i| (w >> i) & 1 == 1));
+                        }
+                        let r = guarded(|| {
+                            let mut d = crate::scan::fresh_ps2();
+                            for (g, grp) in bits.chunks(11).enumerate() {
+                                let mut w = 0u16;
+                                for (i, b) in grp.iter().enumerate() {
+                                    w |= (*b as u16) << i;
+                                    let got = d.add_bit(*b);
+                                    let want: BitRes = if i < 10 { Ok(None) } else { oracle(w).map(Some) };
+                                    if got != want {
+                                        return Some((g, i, bitres_str(&want), bitres_str(&got)));
+                                    }
+                                }
+                            }
+                            None
+                        });
+                        judged += (bits.len() / 11) as u64;
+                        if let Ok(Some((g, i, want, got))) = r {
+                            reported += 1;
+                            if reported <= 20 {
+                                let shown: String = bits.iter().map(|b| if *b { '1' } else { '0' }).collect();
+                                rep.violate(
+                                    format!("{}|add_bit|shifted-burst|stray={}x{}|frames={:02X},{:02X},{:?}|group#{}|bit#{}|want={}|got={}", prop, z, pol as u8, c1, c2, c3, g, i + 1, want, got),
+                                    format!("bit stream {} ({} stray {} bits, then the frames of {:02X} {:02X} {:?}, idle padding, three more frames): in group {} of eleven bits, bit {} returned {}; expected {}", shown, z, pol as u8, c1, c2, c3, g + 1, i + 1, got, want),
+                                    J::obj().with("kind", J::s("bit-stream")).with("bits", J::s(shown)),
+                                );
+                            }
+                        }
+                    }
+                }
+            }
+        }
+    }
+    rep.evaluations += judged;
+    rep.count("groups_of_eleven_bits_judged_in_shifted_bursts_of_controller_frames", judged);
+}
+
 /// A line that has been clean for a long time, then one bad frame, then every class of frame (C05: judged by the frame
 /// rule; C06: by the crate's own whole-word decoding of the same 11 bits).
 fn clean_run_then_fault(rep: &mut Report, prop: &str, oracle: fn(u16) -> Result<u8, Error>) {
@@ -816,6 +877,7 @@ pub fn run_c06(rep: &mut Report) {
     frame_static_counter_wraps(rep, "C06", true);
     clean_run_then_fault(rep, "C06", whole_word);
     copies_then_every_frame(rep, "C06", whole_word);
+    shifted_bursts(rep, "C06", whole_word);
     let long_run = std::thread::spawn(run_2_32_bits);
     let fresh_dbg = format!("{:?}", crate::scan::fresh_ps2());
     let mut out = Out::default();
